@@ -14,7 +14,8 @@ RULE = ('random finite/segment MPS (L 2-7; spin-1/2, spin-1, fermion, spinful fe
         'project_onto_charge_sector, followed by random histories of convert_form / canonical_form / copy / get_B-set_B; '
         'infinite MPS are checked on windows through harness-built theta tensors. The harness contracts the raw stored '
         'tensors with the recorded form exponents itself. non-trivial = entangled state (some bond dimension >= 2); '
-        'distinct = (builder, site kind, L, history) signature')
+        'distinct = (builder, site kind, L, history) signature'
+        ' Also: from_lat_product_state on all lattice kinds, re-canonicalisation of infinite states from site-dependent forms, real infinite states made complex through set_B, charge-resolved entanglement spectrum against the dense state.')
 ASSUMPTIONS = ['the stored tensor of site i denotes S_i^nuL Gamma_i S_{i+1}^nuR with form (nuL, nuR) (module docstring of mps.py)']
 ANCHORS = {'tenpy/networks/mps.py': ['*']}
 REQUIRED_COUNTERS = {'builder.from_full': 10, 'builder.from_product_state': 10, 'builder.from_Bflat': 10, 'builder.from_singlets': 5,
